@@ -52,7 +52,7 @@ fn write_num(buf: &mut [u8], mut pos: usize, mut n: usize, hex: bool) -> usize {
     pos
 }
 
-extern "C" fn on_fatal_signal(sig: libc::c_int, info: *mut libc::siginfo_t, _ctx: *mut libc::c_void) {
+extern "C" fn on_fatal_signal(sig: libc::c_int, info: *mut libc::siginfo_t, ctx: *mut libc::c_void) {
     // async-signal-safe: only write(2) and _exit(2)
     unsafe {
         let addr = if sig == libc::SIGSEGV || sig == libc::SIGBUS { (*info).si_addr() as usize } else { 0 };
@@ -79,6 +79,13 @@ extern "C" fn on_fatal_signal(sig: libc::c_int, info: *mut libc::siginfo_t, _ctx
         buf[p] = b' ';
         p += 1;
         p = write_num(&mut buf, p, size, false);
+        // diagnostics (ignored by the parsers): instruction pointer and si_code
+        let ip = if ctx.is_null() { 0 } else { (*(ctx as *mut libc::ucontext_t)).uc_mcontext.gregs[libc::REG_RIP as usize] as usize };
+        for (tag, val, hex) in [(&b" ip="[..], ip, true), (&b" code="[..], (*info).si_code as usize & 0xffff, false)] {
+            buf[p..p + tag.len()].copy_from_slice(tag);
+            p += tag.len();
+            p = write_num(&mut buf, p, val, hex);
+        }
         buf[p] = b'\n';
         p += 1;
         libc::write(1, buf.as_ptr() as *const _, p);
